@@ -356,6 +356,18 @@ pub fn gen_lib(src: &mut Src) -> HLib {
             HGeom::Path(p, _) if !is_manhattan(p) => !labelled_layers.contains(&s.layer),
             _ => true,
         });
+        // now and then a boundary that spans the whole 32-bit range in both directions (a triangle over half the
+        // plane, on a layer of its own), with a label right at, just inside or just outside its long edge
+        if src.prob(1, 12) {
+            const LO: i64 = i32::MIN as i64;
+            const HI: i64 = i32::MAX as i64;
+            shapes.push(HShape { layer: 177, dt: 0, geom: HGeom::Boundary(vec![(LO, LO), (HI, LO), (LO, HI), (LO, LO)]) });
+            // the long edge is x + y = -1
+            let x = *src.pick(&[0i64, 1000, -123_456_789, 1_000_000_000, 7]);
+            let loc = (x, -1 - x + *src.pick(&[0i64, 1, -1, 2, -1000]));
+            labels.push(HLabel { layer: 177, texttype: 0, string: "half_plane".into(), loc });
+            labelled_layers.push(177);
+        }
         // references to earlier structs
         let mut refs = vec![];
         if si > 0 {
